@@ -4,13 +4,17 @@
 (* matches/~, bitwise_and/&), every assignment of spellings to the operator occurrences is       *)
 (* emitted; the expected AST JSON does not depend on the assignment (AstJson ignores spelling),  *)
 (* and structurally different base programs have different expected JSON (checked in-model).     *)
+(* Every assignment is laid out with each of six white-space conventions (one space, line feed, *)
+(* CR LF, bare CR, mixed, and no space where none is needed).  Association: the three ways of    *)
+(* grouping a three-operand chain are distinct programs with distinct JSON.                      *)
 EXTENDS WfParser, WfEval, WfJson, Json, SequencesExt
 VARIABLES cas
 Sch == [fields |-> <<[name |-> "i", ty |-> TInt, opt |-> TRUE], [name |-> "s", ty |-> TBytes, opt |-> TRUE],
-                     [name |-> "b1", ty |-> TBool, opt |-> TRUE], [name |-> "b2", ty |-> TBool, opt |-> TRUE]>>,
+                     [name |-> "b1", ty |-> TBool, opt |-> TRUE], [name |-> "b2", ty |-> TBool, opt |-> TRUE],
+                     [name |-> "vb", ty |-> TArr(TBool), opt |-> TRUE]>>,
         funcs |-> <<>>, lists |-> <<>>, nne |-> TRUE]
-Ctxs == << [sch |-> 1, vals |-> <<VInt(IntOfNat(1)), VBytes(<<97>>), VBool(TRUE), VBool(FALSE)>>, lists |-> <<>>],
-           [sch |-> 1, vals |-> <<Nil, Nil, Nil, Nil>>, lists |-> <<>>] >>
+Ctxs == << [sch |-> 1, vals |-> <<VInt(IntOfNat(1)), VBytes(<<97>>), VBool(TRUE), VBool(FALSE), VArr(TBool, <<VBool(TRUE), VBool(FALSE)>>)>>, lists |-> <<>>],
+           [sch |-> 1, vals |-> <<Nil, Nil, Nil, Nil, Nil>>, lists |-> <<>>] >>
 Id(n) == [k |-> "id", name |-> n]
 O(v) == [k |-> "ord", v |-> v, a |-> 0]
 L(v) == [k |-> "lop", v |-> v, a |-> 0]
@@ -23,10 +27,17 @@ Base == << <<N, Id("b1"), L("and"), Id("b2"), L("or"), N, Id("b1"), L("xor"), Id
            <<Id("i"), O("le"), I1, L("or"), Id("i"), O("gt"), I1, L("or"), Id("i"), O("lt"), I1>>,
            <<Id("i"), [k |-> "band", a |-> 0], I1, L("xor"), Id("s"), [k |-> "bop", v |-> "matches", a |-> 0], Re>>,
            <<N, N, [k |-> "lp"], Id("s"), O("eq"), Sa, L("and"), N, Id("b1"), [k |-> "rp"]>>,
-           <<Id("b1"), L("and"), Id("b2"), L("and"), Id("b1"), L("or"), Id("b2"), L("xor"), Id("b1")>> >>
+           <<Id("b1"), L("and"), Id("b2"), L("and"), Id("b1"), L("or"), Id("b2"), L("xor"), Id("b1")>>,
+           <<Id("b1"), L("or"), Id("b2"), L("or"), Id("b1")>>,
+           <<[k |-> "lp"], Id("b1"), L("or"), Id("b2"), [k |-> "rp"], L("or"), Id("b1")>>,
+           <<Id("b1"), L("or"), [k |-> "lp"], Id("b2"), L("or"), Id("b1"), [k |-> "rp"]>>,
+           <<[k |-> "lp"], Id("b1"), L("and"), Id("b2"), [k |-> "rp"], L("and"), N, [k |-> "lp"], Id("b1"), [k |-> "rp"]>>,
+           <<[k |-> "quant", v |-> "any"], [k |-> "lp"], N, Id("vb"), [k |-> "rp"], L("xor"),
+             [k |-> "quant", v |-> "all"], [k |-> "lp"], N, [k |-> "lp"], Id("vb"), L("and"), N, Id("vb"), [k |-> "rp"], [k |-> "rp"]>> >>
 HasAlias(t) == t.k \in {"not", "lop", "ord", "band"} \/ (t.k = "bop" /\ t.v = "matches")
 APos(p) == SetToSortSeq({j \in 1..Len(Base[p]) : HasAlias(Base[p][j])}, LAMBDA x, y : x < y)
-Init == cas \in UNION {{<<p, asg>> : asg \in [1..Len(APos(p)) -> {0, 1}]} : p \in 1..Len(Base)}
+Seps == {"sp", "lf", "crlf", "cr", "wide", "tight"}
+Init == cas \in UNION {{<<p, asg, sep>> : asg \in [1..Len(APos(p)) -> {0, 1}], sep \in Seps} : p \in 1..Len(Base)}
 Next == FALSE /\ UNCHANGED cas
 Spec == Init /\ [][Next]_cas
 Toks == LET ps == APos(cas[1]) IN
@@ -40,7 +51,7 @@ DistinctStructureDistinctJson ==
   \A q \in 1..Len(Base) : q # cas[1] =>
      AstJson(ParseFilter(Base[q], Sch, 128).node) # AstJson(ParseFilter(Base[cas[1]], Sch, 128).node)
 Vector == LET r == ParseFilter(Toks, Sch, 128) IN
-  [ev |-> "filter", sch |-> 1, max |-> 128, ts |-> Toks, ok |-> r.ok, ast |-> AstJson(r.node),
+  [ev |-> "filter", sch |-> 1, max |-> 128, sep |-> cas[3], ts |-> Toks, ok |-> r.ok, ast |-> AstJson(r.node),
    runs |-> Strict([n \in 1..Len(Ctxs) |-> [ctx |-> n, out |-> "ok", res |-> EvalFilter(r.node, Ctxs[n], Sch)]]), uses |-> <<>>]
 Emit == PrintT(<<"REPLAY", ToJson(Vector)>>)
 ASSUME /\ PrintT(<<"REPLAY", ToJson([hdr |-> "scheme", sch |-> Sch])>>)
